@@ -297,6 +297,57 @@ fn judge(case: &c13::Case, run: &c13::Run, ctx: &mut CaseCtx) {
             fail!("C19/other/more-than-three-follow-ups", "{} follow-up queries for {} {} within 2 s from +{} ms", n, name.to_escaped(), type_name(*qtype), t - T0);
         }
     }
+    // ... and at most three tries (moments with follow-up questions about the instance or the
+    // host of its SRV) while an instance stays found and unresolved: the chain is not started
+    // again by later records of the same instance
+    let mut periods_judged = 0u32;
+    {
+        let found: Vec<(usize, u64, Name)> = d
+            .log
+            .iter()
+            .enumerate()
+            .filter_map(|(p, e)| match &e.ev {
+                Ev::Svc { ev: ServiceEvent::ServiceFound(_, n), .. } => Some((p, e.t, Name::from_escaped(n).lower())),
+                _ => None,
+            })
+            .collect();
+        for (p0, t0, inst) in &found {
+            // the period ends with the next event about the instance, a stop / new browse, or the end
+            let end = d.log[*p0 + 1..]
+                .iter()
+                .find_map(|e| match &e.ev {
+                    Ev::Svc { ev: ServiceEvent::ServiceResolved(r), .. } if Name::from_escaped(&r.fullname).lower() == *inst => Some(e.t),
+                    Ev::Svc { ev: ServiceEvent::ServiceRemoved(_, n), .. } | Ev::Svc { ev: ServiceEvent::ServiceFound(_, n), .. } if Name::from_escaped(n).lower() == *inst => Some(e.t),
+                    Ev::Api(a) if a.starts_with("stop_browse") || a.starts_with("browse") || a.starts_with("shutdown") => Some(e.t),
+                    _ => None,
+                })
+                .unwrap_or(u64::MAX);
+            // (host questions count only where no other instance shares the host)
+            let hosts: Vec<Name> = rx
+                .iter()
+                .filter(|x| x.2.name.lower() == *inst)
+                .filter_map(|x| wire::srv_of(x.2).map(|(_, h)| h.lower()))
+                .filter(|h| !rx.iter().any(|y| y.2.name.lower() != *inst && wire::srv_of(y.2).is_some_and(|(_, h2)| h2.lower() == *h)))
+                .collect();
+            let mut times: Vec<u64> = followups.iter().filter(|f| f.2 > *t0 && f.2 <= end && (f.0 == *inst || hosts.contains(&f.0))).map(|f| f.2).collect();
+            times.sort();
+            times.dedup();
+            if end > *t0 + 1600 {
+                periods_judged += 1;
+            }
+            if times.len() > 3 {
+                fail!(
+                    "C19/other/follow-up-chain-started-again",
+                    "{} was reported found at +{} ms and stayed unresolved; follow-up questions about it left at {:?} (+ms): {} tries instead of at most three",
+                    inst.to_escaped(),
+                    t0 - T0,
+                    times.iter().map(|x| x - T0).collect::<Vec<_>>(),
+                    times.len()
+                );
+            }
+        }
+    }
+    ctx.class_if(periods_judged > 0, "unresolved-instance-observed->1.6s");
     ctx.class_if(long_search, "search-through->=12-retransmissions");
     ctx.class_if(reissued, "browse-again-mid-schedule");
     ctx.class_if(run.host_chans.iter().any(|c| c.timeout_at.is_some()), "hostname-search-with-timeout");
@@ -329,6 +380,7 @@ pub fn strategy() -> BoxedStrategy<c13::Case> {
         3 => (0usize..3, 0u8..4, proptest::option::weighted(0.3, prop_oneof![Just(500u64), Just(5000), 1u64..400_000])).prop_map(|(host, case_var, timeout_ms)| Op::Resolve { host, case_var, timeout_ms }),
         1 => (0usize..3, 0u8..4).prop_map(|(host, case_var)| Op::StopResolve { host, case_var }),
         3 => (0usize..3, 0usize..3, prop_oneof![Just(120u32), Just(4500), Just(10), 2u32..5000]).prop_map(|(ty, inst, ttl)| Op::Announce { ty, inst, ttl, part: 0 }),
+        2 => (0usize..3, 0usize..3, prop_oneof![Just(120u32), Just(4500), 20u32..5000], 1u8..4).prop_map(|(ty, inst, ttl, part)| Op::Announce { ty, inst, ttl, part }),
         1 => (0usize..3, 0usize..3).prop_map(|(ty, inst)| Op::Goodbye { ty, inst }),
         2 => (0usize..3, 0u8..4, prop_oneof![Just(120u32), 2u32..5000]).prop_map(|(host, case_var, ttl)| Op::HostAddr { host, case_var, ttl }),
         6 => prop_oneof![Just(0u64), Just(1500), Just(10_000), Just(100_000), 0u64..5000, 0u64..3_000_000, 0u64..40_000_000].prop_map(|ms| Op::Advance { ms }),
